@@ -34,14 +34,18 @@ def base_fields(seed):
     for shape, dx in (((48,), 1.0), ((32, 24), 0.5), ((12, 12, 16), 2.0)):
         raw = ndimage.gaussian_filter(rng.standard_normal(shape), sigma=2.0, mode="wrap")
         out.append((f"smooth{len(shape)}d", shape, dx, True, raw / raw.std() + 0.3))
+    # a box that is periodic along its first axis only: translations along THAT axis must not matter either
+    raw = ndimage.gaussian_filter(rng.standard_normal((32, 20)), sigma=2.0, mode=["wrap", "nearest"])
+    raw *= np.hanning(22)[1:-1][None, :]          # the field is localised away from the two walls
+    out.append(("mixed2d", (32, 20), 0.5, [True, False], raw / raw.std() + 0.3))
     return out
 
 
-def make_field(shape, dx, data, stretch=0):
+def make_field(shape, dx, data, stretch=0, periodic=True):
     from pde import CartesianGrid, ScalarField
 
     s = 2.0**stretch
-    grid = CartesianGrid([(0.0, n * dx * s) for n in shape], list(shape), periodic=True)
+    grid = CartesianGrid([(0.0, n * dx * s) for n in shape], list(shape), periodic=periodic)
     return ScalarField(grid, data)
 
 
@@ -72,12 +76,13 @@ def check_word(rec, idx, fields, base_vals):
                 sign *= math.copysign(1.0, c)
                 pure = False
             else:
-                a = int(rng.integers(0, len(shape)))
+                axes = [a for a in range(len(shape)) if per is True or per[a]]
+                a = axes[int(rng.integers(0, len(axes)))]
                 data = np.roll(data, int(rng.integers(1, shape[a])), axis=a)
                 pure = False
         if st != rec["stretch"]:
             raise core.MachineryError("stretch bookkeeping")
-        f = make_field(shape, dx, data, st)
+        f = make_field(shape, dx, data, st, per)
         bin_ = max(2 * np.pi / (n * dx * 2.0**st) for n in shape)
         for m in METHODS:
             if m == "droplet_detection" and sign < 0:
@@ -201,6 +206,56 @@ def _chunk_waves(items):
     return len(items), bad
 
 
+def check_translates(seed):
+    """every cyclic translate of an image along its periodic axes has the same length scales: images whose clusters touch at
+    corners or edges only (face connectivity decides how many droplets there are -- also across the periodic boundary)"""
+    fails = []
+    n = 0
+    rng = np.random.default_rng(seed)
+    cases = []
+    a = np.zeros((32, 32))
+    a[4:10, 5:11] = 1
+    a[10:16, 11:17] = 1          # two squares meeting at one corner
+    a[22:26, 20:24] = 1
+    cases.append(("corner2d", a, 1.0, [True, True]))
+    b = np.zeros((24, 18))
+    b[3:8, 2:7] = 1
+    b[8:12, 7:12] = 1
+    b[12:17, 12:16] = 1          # a staircase of three
+    cases.append(("stairs2d", b, 0.5, [True, False]))
+    c = np.zeros((12, 12, 12))
+    c[1:5, 1:5, 1:5] = 1
+    c[5:9, 5:9, 1:5] = 1         # two cubes sharing an edge
+    c[5:9, 5:9, 7:11] = 1
+    cases.append(("edge3d", c, 2.0, [True, True, True]))
+    for name, data, dx, per in cases:
+        shape = data.shape
+        ref = {m: measure(make_field(shape, dx, data, 0, per), m) for m in METHODS}
+        shifts = []
+        for ax in range(len(shape)):
+            if per[ax]:
+                shifts += [(ax, k) for k in range(1, shape[ax])]
+        for ax, k in shifts:
+            d2 = np.roll(data, k, axis=ax)
+            if len(shape) == 2 and per[1 - ax] and k % 3 == 0:
+                d2 = np.roll(d2, int(rng.integers(0, shape[1 - ax])), axis=1 - ax)
+            f = make_field(shape, dx, d2, 0, per)
+            n += 1
+            for m in METHODS:
+                got = measure(f, m)
+                if m == "droplet_detection":
+                    if got != ref[m]:
+                        fails.append(f"{name}/{m}: {got!r} after a shift by {k} cells along axis {ax}, {ref[m]!r} before")
+                elif m == "structure_factor_maximum":
+                    # a numerical search: the property only asks for the box's Fourier resolution
+                    bin_ = max(2 * np.pi / (nn * dx) for nn in shape)
+                    if np.isfinite(ref[m]) and not (np.isfinite(got) and abs(2 * np.pi / got - 2 * np.pi / ref[m]) <= 0.5 * bin_):
+                        fails.append(f"{name}/{m}: {got!r} after a shift by {k} cells along axis {ax}, {ref[m]!r} before")
+                elif np.isfinite(ref[m]) and abs(got - ref[m]) > 1e-9 * abs(ref[m]):
+                    fails.append(f"{name}/{m}: {got!r} after a shift by {k} cells along axis {ax}, {ref[m]!r} before")
+    return n, sorted(set(fails))[:10]
+
+
 def classify(b):
     if "wave" in b and b["wave"].get("shape") and any("peak method returns nan" in f for f in b["fails"]):
         return "peak-method-default-smoothing"
@@ -218,7 +273,7 @@ def run(out: core.Outcome) -> None:
         "counting is compared with (V/n)^(1/d) on rendered emulsions. Non-trivial = non-empty word / any wave."
     )
     fields = base_fields(out.seed + 3)
-    base = [{m: measure(make_field(shape, dx, data), m) for m in METHODS} for (_, shape, dx, _, data) in fields]
+    base = [{m: measure(make_field(shape, dx, data, 0, per), m) for m in METHODS} for (_, shape, dx, per, data) in fields]
     _G.update(fields=fields, base=base)
     out.extra["base_values"] = [{k: v for k, v in b.items()} for b in base]
     for name, fn in ((("q_words", _chunk_words), ("q_waves", _chunk_waves)) if out.tier == "quick"
@@ -241,6 +296,11 @@ def run(out: core.Outcome) -> None:
         out.nontrivial_count += sum(1 for _, rec in items if rec["word"] or rec["wave"]["shape"])
         out.parts[name].update(cases=len(items), mismatches=nbad)
         out.sample({"config": name, "case": r.printed[len(r.printed) // 2]}, limit=2)
+    cnt, fails = check_translates(out.seed)
+    out.evaluations += cnt
+    out.parts["translates"] = {"images_times_shifts": cnt}
+    if fails:
+        out.violation({"translates": "corner/edge-touching clusters under all cyclic shifts", "fails": fails})
     n = 48 if out.tier == "quick" else 1600
     per = max(1, n // core.NCPU)
     with mp.get_context("fork").Pool(core.NCPU) as pool:
@@ -270,7 +330,7 @@ def replay(out, path):
         fails = check_wave(case, case["index"])
     else:
         fields = base_fields(out.seed + 3)
-        base = [{m: measure(make_field(shape, dx, data), m) for m in METHODS} for (_, shape, dx, _, data) in fields]
+        base = [{m: measure(make_field(shape, dx, data, 0, per), m) for m in METHODS} for (_, shape, dx, per, data) in fields]
         fails = check_word(case, case["index"], fields, base)
     print("fails:", fails)
     if fails:
